@@ -66,7 +66,7 @@ func machGenOp(rng *rand.Rand, m *mach, us []machUni, o machGenOpts) *mOp {
 		}
 		return nil
 	}
-	k := rng.Intn(20)
+	k := rng.Intn(21)
 	var op *mOp
 	switch k {
 	case 0, 1, 2:
@@ -149,12 +149,70 @@ func machGenOp(rng *rand.Rand, m *mach, us []machUni, o machGenOpts) *mOp {
 		if !o.Self {
 			return nil
 		}
-		op = &mOp{Kind: []string{"add", "remove", "addmany", "removemany"}[rng.Intn(4)], Pt: u.Pt, R1: [][]string{pick(), pick()}, Self: true}
-		if op.Kind == "add" || op.Kind == "remove" {
-			op.R1 = op.R1[:1]
+		// every Self* entry point (the replay side of a WatcherEx bus): same call, no notification
+		switch kind := []string{"add", "remove", "addmany", "removemany", "addmanyex", "removefiltered", "update", "updatemany"}[rng.Intn(8)]; kind {
+		case "add", "remove":
+			op = &mOp{Kind: kind, Pt: u.Pt, R1: [][]string{pick()}, Self: true}
+		case "addmany", "removemany", "addmanyex":
+			op = &mOp{Kind: kind, Pt: u.Pt, R1: [][]string{pick(), pick()}, Self: true}
+		case "removefiltered":
+			r := pick()
+			fi := rng.Intn(len(r))
+			op = &mOp{Kind: kind, Pt: u.Pt, Fi: fi, Fvs: []string{r[fi]}, Self: true}
+		case "update":
+			n := fresh()
+			old := pick()
+			if n == nil || sameRule(n, old) {
+				return nil
+			}
+			if d := m.Conf.Def(u.Pt); d != nil && d.Prio >= 0 && n[d.Prio] != old[d.Prio] {
+				return nil
+			}
+			op = &mOp{Kind: kind, Pt: u.Pt, R1: [][]string{old}, R2: [][]string{n}, Self: true}
+		case "updatemany":
+			o1, o2 := pick(), pick()
+			if sameRule(o1, o2) {
+				return nil
+			}
+			var news [][]string
+			for _, r := range u.Rules {
+				if !containsRule(cur, r) && !sameRule(r, o1) && !sameRule(r, o2) && len(news) < 2 {
+					news = append(news, r)
+				}
+			}
+			if d := m.Conf.Def(u.Pt); len(news) < 2 || (d != nil && d.Prio >= 0) {
+				return nil
+			}
+			op = &mOp{Kind: kind, Pt: u.Pt, R1: [][]string{o1, o2}, R2: news, Self: true}
 		}
 	case 19:
 		return nil
+	case 20:
+		// UpdateFilteredPolicies (policy types only).  Inside the F09 guard: auto-save on, the
+		// filter matches at least one stored rule; the new rules are fresh and pairwise distinct.
+		if !o.UpdateFiltered || u.IsG || !m.AutoSave {
+			return nil
+		}
+		if d := m.Conf.Def(u.Pt); d != nil && d.Prio >= 0 {
+			return nil
+		}
+		if len(cur) == 0 {
+			return nil
+		}
+		r := cur[rng.Intn(len(cur))]
+		fi := rng.Intn(len(r))
+		fvs := []string{r[fi]}
+		var news [][]string
+		for _, x := range u.Rules {
+			if !containsRule(cur, x) && len(news) < 1+rng.Intn(2) {
+				news = append(news, x)
+			}
+		}
+		if len(news) == 0 {
+			return nil
+		}
+		// the adapter content must agree with memory for the filter to select the same rules
+		op = &mOp{Kind: "updatefiltered", Pt: u.Pt, R2: news, Fi: fi, Fvs: fvs}
 	}
 	if op != nil && op.Kind == "updatemany" {
 		// olds must not be given twice
